@@ -10,6 +10,7 @@ import (
 	"encoding/asn1"
 	"fmt"
 	"math/big"
+	"sort"
 	"testing"
 
 	"github.com/veraison/psatoken"
@@ -222,7 +223,7 @@ func malformedKeys() []crypto.PublicKey {
 
 func TestC02_Splices(t *testing.T) {
 	st := NewStats("C02", "TestC02_Splices", "rapid: two signed tokens (same or different key / algorithm / claims); splice protected, payload or signature content between them; replace the signature by zeros, random bytes, the other token's signature, right-length wrong bytes, or other spellings of the same (r,s) (ASN.1 DER, DER plus junk, zero-padded / zero-stripped halves, doubled); 1..8 random byte edits; protected header / payload re-encoded into different but equivalent bytes (non-preferred widths, long or indefinite map head, permuted keys) under the original signature; bytes appended to / cut from the payload or protected-header content with the length prefix adjusted; correctly signed envelopes that carry the algorithm only in the unprotected header or nowhere, a nil payload, an empty signature; verification with every other key (same type, other types, nil, non-keys). Oracle: independent splitter decides whether covered bytes changed; wrong key never verifies; alg-less/payload-less/signature-less never verify. Non-trivial = the altered token decodes; distinct = (alg, mutation kind, details)")
-	st.Require = []string{"splice-payload", "splice-protected", "splice-signature", "sig-zero", "sig-random", "byte-edits", "alg-unprotected-only", "alg-nowhere", "nil-payload", "nil-payload-original-sig", "empty-signature", "wrong-key", "decoded-verify-failed", "equiv-protected", "equiv-payload", "extend-payload", "extend-protected", "sig-reencode", "prefix-payload"}
+	st.Require = []string{"splice-payload", "splice-protected", "splice-signature", "sig-zero", "sig-random", "byte-edits", "alg-unprotected-only", "alg-nowhere", "nil-payload", "nil-payload-original-sig", "empty-signature", "wrong-key", "decoded-verify-failed", "equiv-protected", "equiv-payload", "extend-payload", "extend-protected", "sig-reencode", "prefix-payload", "other-container"}
 	defer st.Flush(t)
 	rapid.Check(t, func(t *rapid.T) {
 		algA := rapid.SampledFrom([]int64{icose.EdDSA, icose.EdDSA, icose.ES256, icose.ES256, icose.PS256, icose.ES384, icose.ES512, icose.PS384, icose.PS512}).Draw(t, "algA")
@@ -233,7 +234,7 @@ func TestC02_Splices(t *testing.T) {
 			t.Fatalf("cannot sign: %v", err)
 		}
 		otherTrafficEvery(4)
-		kind := rapid.SampledFrom([]string{"splice-payload", "splice-protected", "splice-signature", "sig-zero", "sig-random", "sig-flip", "byte-edits", "alg-unprotected-only", "alg-nowhere", "nil-payload", "nil-payload-original-sig", "nil-payload-original-sig", "empty-signature", "wrong-key", "reencode", "equiv-protected", "equiv-protected", "equiv-payload", "extend-payload", "extend-payload", "extend-protected", "shrink-payload", "sig-reencode", "sig-reencode", "prefix-payload", "prefix-payload"}).Draw(t, "kind")
+		kind := rapid.SampledFrom([]string{"splice-payload", "splice-protected", "splice-signature", "sig-zero", "sig-random", "sig-flip", "byte-edits", "alg-unprotected-only", "alg-nowhere", "nil-payload", "nil-payload-original-sig", "nil-payload-original-sig", "empty-signature", "wrong-key", "reencode", "equiv-protected", "equiv-protected", "equiv-payload", "extend-payload", "extend-payload", "extend-protected", "shrink-payload", "sig-reencode", "sig-reencode", "prefix-payload", "prefix-payload", "other-container", "other-container"}).Draw(t, "kind")
 		var mut []byte
 		detail := ""
 		rebuild := func(prot, pay, sig []byte) []byte {
@@ -438,6 +439,48 @@ func TestC02_Splices(t *testing.T) {
 			mut = icbor.Encode(icbor.Tag(18, icbor.Arr(icbor.Bstr(a.Parts.Protected), icbor.Map(), pl, icbor.Bstr(a.Parts.Signature))))
 		case "empty-signature":
 			mut = rebuild(a.Parts.Protected, a.Parts.Payload, nil)
+		case "other-container":
+			// claims the signer never signed (another valid claims-set, or the
+			// genuine one with one byte changed) presented in something that
+			// is not a signed COSE_Sign1 around them: an unprotected claims-set
+			// (UCCS tag 601, CWT tag 61, bare map), a Sign1 array with the
+			// signature missing / empty / null, a COSE_Mac0, COSE_Sign,
+			// COSE_Encrypt0 or untagged look-alike carrying the genuine
+			// protected header and signature. No signature by the signer over
+			// these claims exists, so Verify must not succeed whatever was
+			// decoded.
+			pay := icbor.Encode(GenValid(t, mA.Prof, false).WireNode())
+			if genBool.Draw(t, "flipone") || bytes.Equal(pay, a.Parts.Payload) {
+				pay = append([]byte{}, a.Parts.Payload...)
+				pay[len(pay)-1] ^= 0x01
+			}
+			prot, sig := icbor.Bstr(a.Parts.Protected), icbor.Bstr(a.Parts.Signature)
+			raw := func(b []byte) *icbor.Node { return icbor.Raw(b) }
+			shapes := map[string]*icbor.Node{
+				"uccs-601":             icbor.Tag(601, raw(pay)),
+				"uccs-601-bstr":        icbor.Tag(601, icbor.Bstr(pay)),
+				"cwt-61":               icbor.Tag(61, raw(pay)),
+				"cwt-61-sign1":         icbor.Tag(61, icbor.Tag(18, icbor.Arr(prot, icbor.Map(), icbor.Bstr(pay), icbor.Bstr(nil)))),
+				"bare-map":             raw(pay),
+				"bare-bstr":            icbor.Bstr(pay),
+				"sign1-3-elements":     icbor.Tag(18, icbor.Arr(prot, icbor.Map(), icbor.Bstr(pay))),
+				"sign1-null-sig":       icbor.Tag(18, icbor.Arr(prot, icbor.Map(), icbor.Bstr(pay), icbor.Null())),
+				"sign1-empty-sig":      icbor.Tag(18, icbor.Arr(prot, icbor.Map(), icbor.Bstr(pay), icbor.Bstr(nil))),
+				"sign1-empty-prot-sig": icbor.Tag(18, icbor.Arr(icbor.Bstr(nil), icbor.Map(), icbor.Bstr(pay), icbor.Bstr(nil))),
+				"sign1-sig-in-unprot":  icbor.Tag(18, icbor.Arr(prot, icbor.Map(icbor.P(icbor.U(99), sig)), icbor.Bstr(pay), icbor.Bstr(nil))),
+				"mac0-17":              icbor.Tag(17, icbor.Arr(prot, icbor.Map(), icbor.Bstr(pay), sig)),
+				"sign-98":              icbor.Tag(98, icbor.Arr(prot, icbor.Map(), icbor.Bstr(pay), icbor.Arr(icbor.Arr(prot, icbor.Map(), sig)))),
+				"encrypt0-16":          icbor.Tag(16, icbor.Arr(prot, icbor.Map(), icbor.Bstr(pay))),
+				"untagged-5-elements":  icbor.Arr(prot, icbor.Map(), icbor.Bstr(pay), sig, sig),
+				"map-envelope":         icbor.Tag(18, icbor.Map(icbor.P(icbor.U(1), prot), icbor.P(icbor.U(2), icbor.Map()), icbor.P(icbor.U(3), icbor.Bstr(pay)), icbor.P(icbor.U(4), sig))),
+			}
+			names := make([]string, 0, len(shapes))
+			for k := range shapes {
+				names = append(names, k)
+			}
+			sort.Strings(names)
+			detail = rapid.SampledFrom(names).Draw(t, "shape")
+			mut = icbor.Encode(shapes[detail])
 		case "wrong-key":
 			ev, err := psatoken.DecodeEvidenceFromCOSE(a.Tok)
 			if err != nil {
@@ -467,7 +510,7 @@ func TestC02_Splices(t *testing.T) {
 		}
 		var msg, class string
 		switch kind {
-		case "alg-unprotected-only", "alg-nowhere", "nil-payload", "nil-payload-original-sig", "empty-signature":
+		case "alg-unprotected-only", "alg-nowhere", "nil-payload", "nil-payload-original-sig", "empty-signature", "other-container":
 			ev, err := psatoken.DecodeEvidenceFromCOSE(mut)
 			class = "decode-failed"
 			if err == nil {
